@@ -529,7 +529,7 @@ func genComp(seed int64, idx int, terminalPlan string) *Comp {
 			g.tagged("fwd", "forward", map[string]any{"upstreams": ups, "concurrent": r.Intn(4)})
 			g.termExec = g.pick("$fwd", "$fwd", "$fwd u0")
 		}
-		c.TimeoutMs = 250
+		c.TimeoutMs = 150
 	}
 
 	used := map[string]bool{}
